@@ -4,7 +4,7 @@ import XpmVerif.Generated.SchedFlags
 /-! Line-protocol driver for M4 (restart world): C11, and the racing launches of C05.
 
     {"op":"init","tokens":[..],"jobs":[{"ident","deps","code","marker"}..],"done":[ident..]}
-    {"op":"ev","e":["sched", <event of Drive/Sched.lean>]} | ["proc",p,rmPid] | ["crash"] | ["crashAfterSpawn",j]
+    {"op":"ev","e":["sched", <event of Drive/Sched.lean>]} | ["proc",p,rmPid] | ["crash"] | ["crashAfterSpawn",j] | ["crashInPrepare",j,"absent"|"broken"|"ready"]
                    | ["spawn",ident,code]      -- a launch by somebody else (another scheduler): process without pid file
                    | ["quiesce", allow]        -- run a fixed policy until nothing is enabled; processes listed in
                                                   `allow` (or all if allow = null) may leave the body
@@ -66,6 +66,7 @@ def observe (d : DS') : Json :=
         Json.mkObj [("ident", (i : Json)), ("done", (x.done : Json)),
                     ("pid", match x.pid with | some p => (p : Json) | none => Json.null),
                     ("lock", match x.lock with | .free => ("free" : Json) | .sched => "sched" | .proc p => (p : Json)),
+                    ("script", (match x.script with | .absent => "absent" | .broken => "broken" | .ready => "ready" : String)),
                     ("bodies", (x.bodies : Json)), ("succ", (x.succ : Json)), ("fails", (x.fails : Json)),
                     ("spawns", (x.spawns : Json))]).toArray)]
 
@@ -149,6 +150,9 @@ def stepJ (d : DS') (j : Json) : DS' × Json :=
       | "proc" => d.w.apply Gen.schedFlags (.proc (nat (e.getD 1 Json.null)) (J.bool (e.getD 2 Json.null)))
       | "crash" => d.w.apply Gen.schedFlags .crash
       | "crashAfterSpawn" => d.w.apply Gen.schedFlags (.crashAfterSpawn (nat (e.getD 1 Json.null)))
+      | "crashInPrepare" =>
+        let st : Script := match J.str (e.getD 2 Json.null) with | "absent" => .absent | "ready" => .ready | _ => .broken
+        d.w.apply Gen.schedFlags (.crashInPrepare (nat (e.getD 1 Json.null)) st)
       | "spawn" => { d.w with a := { d.w.a with d := d.w.a.d.spawn (nat (e.getD 1 Json.null)) (nat (e.getD 2 Json.null)) } }
       | "untilEnter" => untilEnter Gen.schedFlags (nat (e.getD 1 Json.null)) 5000 d.w
       | "procsOnly" => procsOnly Gen.schedFlags 5000 d.w
